@@ -1289,3 +1289,109 @@ def r_lat2_sentinel(cx):
               "`not given`, and the projection becomes the tangent cone at lat_1" % mir.show(c, maxd=3)[:80],
               cx.where(sw["span"]))
     cx.count("R-LAT2-SENTINEL", "tests", n)
+
+
+@rule("R-SENTINEL-DEFAULT", ["C13", "C05", "C16"])
+def r_sentinel_default(cx):
+    """How an operator asks `was this optional number given?` and what its gamut says the number is when it was not have
+    to agree. A constructor (or apply function) that tests a single Real parameter with `is_nan()` believes that NaN is
+    what `not given` looks like - the gamut default of that key is then NaN. With another default (0, say) the test is
+    constantly `given`, and whatever the branch does for a given value (merc: lat_ts replaces k_0) happens always."""
+    from rules.inverse import _keys_deep
+    reg = cx.registry()
+    n = 0
+    for cpath, c in sorted(reg.ctors.items()):
+        defaults = {}
+        for g in (c.gamut or []):
+            if isinstance(g, dict) and str(g.get("__struct", "")).endswith("OpParameter::Real"):
+                d = g.get("default")
+                val = "required"
+                if isinstance(d, dict) and d.get("args"):
+                    a = d["args"][0]
+                    val = "nan" if isinstance(a, dict) and str(a.get("__path", "")).endswith("NAN") else a
+                defaults[g.get("key")] = val
+        if not defaults:
+            continue
+        for fn in sorted(set(x for x in (cpath, c.fwd, c.inv) if x)):
+            if not cx.f.has_fn(fn):
+                continue
+            f = cx.f.fn(fn)
+            k = 0
+            for bb in sorted(f.reachable()):
+                sw = f.term(bb)
+                if sw["k"] != "switch":
+                    continue
+                d = mir.strip_refs(f.operand(sw["discr"], f.end_point(bb)))
+                while d[0] == "un" and d[1] == "Not":
+                    d = mir.strip_refs(d[2])
+                if not (d[0] == "call" and isinstance(d[1], str) and d[1].endswith("::is_nan") and d[2]):
+                    continue
+                # the value tested is the parameter itself (possibly converted), not something computed from it
+                v = mir.strip_refs(d[2][0])
+                for _ in range(4):
+                    if v[0] == "call" and isinstance(v[1], str) and v[1].rsplit("::", 1)[-1] in ("to_radians", "to_degrees", "abs") and v[2]:
+                        v = mir.strip_refs(v[2][0])
+                    elif v[0] == "proj" and isinstance(v[2], tuple) and v[2][0] in ("variant", "f"):
+                        v = mir.strip_refs(v[1])
+                    elif v[0] == "call" and isinstance(v[1], str) and v[1].endswith("Try>::branch") and v[2]:
+                        v = mir.strip_refs(v[2][0])
+                    else:
+                        break
+                direct = (v[0] == "call" and isinstance(v[1], str) and v[1].startswith(K.PP + "::")) or \
+                    (v[0] == "proj" and isinstance(v[2], tuple) and v[2][0] == "elem")
+                if not direct:
+                    continue
+                # a test that refuses NaN (the NaN side only leads to an error) is a validation, not a presence test
+                nan_side = sw["otherwise"]
+                oks = K.ok_blocks(f) if fn == cpath else None
+                if oks is not None and oks and not (set(oks) & f.reach_from([nan_side], avoid=[])):
+                    continue
+                ks = _keys_deep(f, d[2][0])
+                mir.walk(d[2][0], lambda y: (ks.add(K._const_key(y[2][2])) if y[0] == "proj" and isinstance(y[2], tuple) and
+                                             y[2][0] == "elem" and len(y[2]) > 2 and isinstance(y[2][2], tuple) and
+                                             K._const_key(y[2][2]) else None) or True)
+                ks = {x for x in ks if x in defaults}
+                if len(ks) != 1:
+                    continue
+                key = next(iter(ks))
+                n += 1
+                ok = defaults[key] in ("nan", "required")
+                cx.ob("R-SENTINEL-DEFAULT", "%s/%s/%s" % (c.names[0] if c.names else cpath, fn.rsplit("::", 1)[-1], key), ok,
+                      "%s: `%s` is tested for NaN and defaults to NaN" % (fn, key) if ok else
+                      "%s tests `%s` with is_nan() to see whether it was given, but the gamut gives it the default %s: the test "
+                      "never finds it absent, and what is meant for an explicitly given `%s` happens always (an explicitly "
+                      "given other parameter is overridden)" % (fn, key, defaults[key], key), cx.where(sw["span"]))
+                k += 1
+    if n == 0:
+        cx.ob("R-SENTINEL-DEFAULT", "none", True, "no operator tests a single Real parameter for NaN", nontrivial=False)
+    cx.count("R-SENTINEL-DEFAULT", "nan_tests", n)
+
+
+@rule("R-PLAIN-IDENTITY", ["C13", "C16"])
+def r_plain_identity(cx):
+    """Op::plain makes sure the latitude / longitude parameters lat_0..lat_3, lon_0..lon_3 exist (0 when not given). What
+    it stores under such a key is the value that was read under it, or the default - never something computed from it:
+    the operators read these keys in degrees as the user wrote them (`lon_0 % 180.` turns a central meridian of 183 into 3)."""
+    name = "op::Op::plain"
+    if not cx.f.has_fn(name):
+        cx.ob("R-PLAIN-IDENTITY", "anchor", False, "anchor-missing: %s" % name)
+        return
+    f = cx.f.fn(name)
+    n = 0
+    for bb, t in f.calls():
+        if not ((f.callee(t) or "").endswith("BTreeMap::<K, V, A>::insert") and "f64" in (t.get("callee_full") or "")):
+            continue
+        a = f.arg_terms(bb)
+        if len(a) < 3:
+            continue
+        n += 1
+        arith = []
+        mir.walk(a[2], lambda y: (arith.append(y[1]) if y[0] in ("bin", "un") else
+                                  (arith.append(y[1].rsplit("::", 1)[-1]) if y[0] == "call" and isinstance(y[1], str) and
+                                   y[1].rsplit("::", 1)[-1] in ("rem_euclid", "to_radians", "to_degrees", "abs", "clamp", "min", "max",
+                                                                 "round", "floor", "trunc", "signum") else None)) or True)
+        cx.ob("R-PLAIN-IDENTITY", "plain/insert%d" % (n - 1), not arith,
+              "Op::plain stores the parameter as read" if not arith else
+              "Op::plain stores a latitude / longitude parameter after applying `%s` to it: the operator no longer works with "
+              "the value the user wrote" % arith[0], cx.where(t["span"]))
+    cx.count("R-PLAIN-IDENTITY", "inserts", n)
